@@ -24,6 +24,7 @@ def extra(led, tier, seed):
     led.extend(douglas.init_params_table())
     from contracts import predict_glue
     led.extend(o for o in predict_glue.infer_frame() if o.name.startswith("Douglas."))
+    led.extend(o for o in predict_glue.obligations() if o.name.startswith("Douglas."))
     from contracts import dtype_native
     led.extend(dtype_native.predict_dtypes(seed, only=("Douglas",)))
     led.assume("A1", "A2", "A3", "A4", "A8", "A5: softmax contract (positive entries summing to 1 per row)",
